@@ -33,12 +33,23 @@ class Infra(Exception):
     """infrastructure failure: exit 2, never a violation"""
 
 
-def bootstrap_repo():
-    """Make `import pyscsi` resolve to the tree under test (VERIF_REPO, default /repo)."""
-    sys.path.insert(0, str(REPO))
+def bootstrap_repo(stubs=("sgio", "iscsi")):
+    """Make `import pyscsi` resolve to the tree under test (VERIF_REPO, default /repo); the external
+    bindings named in `stubs` are replaced by the harness' stand-ins, the others are made unimportable."""
+    import importlib.util
+    if str(REPO) not in sys.path[:1]:
+        sys.path.insert(0, str(REPO))
     for k in list(sys.modules):
-        if k == "pyscsi" or k.startswith("pyscsi."):
+        if k == "pyscsi" or k.startswith("pyscsi.") or k in ("sgio", "iscsi"):
             del sys.modules[k]
+    for name in ("sgio", "iscsi"):
+        if name in stubs:
+            spec = importlib.util.spec_from_file_location(name, str(STUBS / (name + ".py")))
+            mod = importlib.util.module_from_spec(spec)
+            spec.loader.exec_module(mod)
+            sys.modules[name] = mod
+        else:
+            sys.modules[name] = None   # import raises ImportError
     import pyscsi  # noqa
 
     if not str(Path(pyscsi.__file__).resolve()).startswith(str(REPO)):
